@@ -24,6 +24,7 @@ def run(tier, seed):
         (D.limiter('C09'), D.WIT_F5, D.replay_limiter),
         (D.do_adjust('C09', 'lower'),), (D.do_adjust('C09', 'upper'),),
         (D.antiwindup('C09'), D.WIT_AW, D.replay_antiwindup),
+        (D.antiwindup('C09', stale=True), D.WIT_AW, D.replay_antiwindup),
         (D.switcher('C09'),),
         (D.deadband_rt('C09'), D.WIT_F6, D.replay_deadband_rt),
         (D.delay('C09'),), (D.average('C09'),), (D.derivative('C09'),), (D.sampling('C09'),),
